@@ -515,8 +515,6 @@ func (r *FileRestorer) restoreIdent(n *dst.Ident, parentName, parentField, paren
 	out := &ast.SelectorExpr{}
 	r.Ast.Nodes[n] = out
 	r.Dst.Nodes[out] = n
-	r.Dst.Nodes[out.Sel] = n
-	r.Dst.Nodes[out.X] = n
 	r.applySpace(n, "Before", n.Decs.Before)
 
 	// Decoration: Start
@@ -537,6 +535,10 @@ func (r *FileRestorer) restoreIdent(n *dst.Ident, parentName, parentField, paren
 	// Decoration: End
 	r.applyDecorations(out, "End", n.Decs.End, true)
 	r.applySpace(n, "After", n.Decs.After)
+
+	// all three ast nodes belong to the one dst identifier (as in the decorator)
+	r.Dst.Nodes[out.Sel] = n
+	r.Dst.Nodes[out.X] = n
 
 	return out
 
